@@ -24,7 +24,7 @@ build_coq() {
     coq_makefile -f _CoqProject -o Makefile > /dev/null
   fi
   # targets: the model and the Properties files of the claimed properties (MANIFEST.json)
-  targets="Model/Dump.vo Model/LdDump.vo"
+  targets="Model/Dump.vo Model/LdDump.vo Properties/DocLevel.vo"
   for p in $(python3 -c "import json;print(' '.join(c['property_id'] for c in json.load(open('$VERIF/MANIFEST.json'))['checks']))"); do
     for f in Properties/$p*.v; do
       if grep -q "^Theorem" "$f" 2>/dev/null; then targets="$targets ${f%.v}.vo"; fi
